@@ -698,3 +698,37 @@ Lemma ex_error_lemma :
   (exec Redis s 0 (IncrBy [107%N] I64MAX)).2 = RErr EOverflow ∧
   ro_impl (tag (LRange [108%N] 0 (-1))) = true ∧ ro_impl (tag (LPop [108%N])) = false.
 Proof. vm_compute. done. Qed.
+
+(* The reference is binary safe: members are compared as byte strings.  (The implementation
+   stores set members, hash fields and sorted-set members as lossy-UTF-8 Strings: known finding
+   C01-lossy-members; both dialects of the model are binary safe, and the correspondence check
+   only uses valid UTF-8 members.) *)
+Lemma members_binary_safe_lemma : ∀ dl now (k m m' : list N),
+  (exec dl (exec dl ∅ now (SAdd k [m])).1 now (SIsMember k m')).2 = RInt (if bool_decide (m' = m) then 1 else 0) ∧
+  (exec dl (exec dl ∅ now (HSet k [(m, [118%N])])).1 now (HExists k m')).2 = RInt (if bool_decide (m' = m) then 1 else 0) ∧
+  (exec dl (exec dl ∅ now (ZAdd k [(1, m)] false false false false false)).1 now (ZScore k m')).2 =
+     RBulk (if bool_decide (m' = m) then Some [49%N] else None).
+Proof.
+  intros dl now k m m'. unfold exec, exec_wf, on_key. simpl. rewrite lookup_empty. simpl.
+  unfold sadd_all, hset_all. simpl. rewrite lookup_empty. simpl.
+  rewrite bool_decide_false by set_solver. unfold mk. simpl.
+  assert (elements ({[m]} ∪ ∅ : gset (list N)) ≠ []) as He.
+  { intros E. apply elements_empty_inv in E. set_solver. }
+  destruct (elements ({[m]} ∪ ∅ : gset (list N))) eqn:E1; [done|]. simpl.
+  pose proof (nonempty_hinsert ∅ m [118%N]) as Hh. simpl in Hh.
+  destruct (map_to_list (<[m:=[118%N]]> (∅ : gmap (list N) (list N)))) eqn:E2; [done|]. simpl.
+  assert (map_to_list (<[m:=1]> (∅ : gmap (list N) Z)) ≠ []) as Hz.
+  { intros E. apply map_to_list_empty_iff in E. by apply insert_non_empty in E. }
+  destruct (map_to_list (<[m:=1]> (∅ : gmap (list N) Z))) eqn:E3; [done|]. simpl.
+  rewrite !lookup_insert. simpl.
+  repeat split.
+  - f_equal. destruct (decide (m' = m)) as [->|Hne].
+    + rewrite !bool_decide_true; [done| done | set_solver].
+    + rewrite !bool_decide_false; [done| done | set_solver].
+  - f_equal. destruct (decide (m' = m)) as [->|Hne].
+    + rewrite lookup_insert. by rewrite bool_decide_true.
+    + rewrite lookup_insert_ne by done. rewrite lookup_empty. by rewrite bool_decide_false.
+  - f_equal. destruct (decide (m' = m)) as [->|Hne].
+    + rewrite lookup_insert. by rewrite bool_decide_true.
+    + rewrite lookup_insert_ne by done. rewrite lookup_empty. by rewrite bool_decide_false.
+Qed.
